@@ -98,6 +98,8 @@ def main():
         os.makedirs(os.path.dirname(p), exist_ok=True)
         with open(p, 'w') as f:
             f.write(text)
+    # scripts given by bare name are looked up on $PATH (kernprof.find_script): one directory of ours comes first
+    os.environ['PATH'] = os.path.join(tmp, 'pathdir') + os.pathsep + os.environ.get('PATH', '')
     orig_path = [tmp if (e == '' or os.path.realpath(e) == tmp) else e for e in P0]
     P0[:] = orig_path
     import kernprof
